@@ -302,6 +302,8 @@ class FFCDHKey:
             raise ValueError(f"Failed to unpack {cls.__name__} as magic identifier is invalid")
 
         key_length = int.from_bytes(view[4:8], byteorder="little")
+        if len(view) < 8 + (3 * key_length):
+            raise ValueError(f"Failed to unpack {cls.__name__} as the data is too short for the key length {key_length}")
 
         field_order = view[8 : 8 + key_length].tobytes()
         view = view[8 + key_length :]
